@@ -379,3 +379,118 @@ Print Assumptions C18_main_report_unbound_contract.
 Print Assumptions C18_main_report_silent_on_empty_error.
 Print Assumptions C18_repr_num_list_gen_eq.
 Print Assumptions C18_get_info_gen_spec.
+
+(* ---------------------------------------------------------------------------------------------------------------------
+   The TEXT of the node labels (rows), regenerated from utils/output.py _instruction_to_dot / _bb_to_dot /
+   all_subroutines_to_dot (Gen/RowsGen.v, tools/translate_rows.py) against Model/Rows.v (Lemmas/RowsGenLemmas.v). *)
+From Coq Require Import String List NArith Bool Arith Ascii Sorted.
+From Tealer Require Import Syntax Parse Cfg Analysis KeysGen Output OutputGen Rows RowsGen RowsGenLemmas.
+
+(* one generated row = the rendering of the model row (line, escaped stripped source text, markup, comments) *)
+Theorem C18_instruction_to_dot_gen_eq :
+  forall (t : teal) (src : list string) (sel : string -> string) (cfg : rowcfg) (k : nat) (r : row),
+    ins_row sel src (t_prog t) k = Some r ->
+    instruction_to_dot_gen t src sel k (lift_cfg cfg) = Some (render_row cfg r).
+Proof. exact @instruction_to_dot_gen_eq. Qed.
+Theorem C18_instruction_to_dot_gen_none :
+  forall (t : teal) (src : list string) (sel : string -> string) (cfg : rowcfg) (k : nat),
+    ins_row sel src (t_prog t) k = None -> instruction_to_dot_gen t src sel k (lift_cfg cfg) = None.
+Proof. exact @instruction_to_dot_gen_none. Qed.
+
+(* every instruction of a parsed contract has its own source line, and that line parses to the instruction *)
+Theorem C18_source_row_parsed :
+  forall (s : string) (p : prog) (t : teal) (sel : string -> string),
+    parse_program s = Ok p -> parse_teal p = Ok t ->
+    forall (k : nat) (i : ins), nth_error (t_prog t) k = Some i ->
+    exists l : string,
+      source_line (splitlines s) (i_line i) = Some l /\ parse_line l = Ok (Some (i_op i)) /\ is_comment_line l = false /\
+      ins_row sel (splitlines s) (t_prog t) k =
+        Some (mkRow k (i_line i) (strip l) (ins_markup (i_op i)) (ins_tealer_comments sel (i_op i))
+                    (comments_between (splitlines s) (prev_line (t_prog t) k) (i_line i))).
+Proof. exact @source_row_parsed. Qed.
+
+(* the rows of a block: every instruction exactly once, in order, with its own 1-based line, increasing strictly *)
+Theorem C18_block_rows_parsed :
+  forall (s : string) (p : prog) (t : teal) (sel : string -> string),
+    parse_program s = Ok p -> parse_teal p = Ok t ->
+    forall (n : nat) (b : block), tblock t n = Some b ->
+    Forall2 (row_of s t sel) (b_ins b) (block_rows sel (splitlines s) t b).
+Proof. exact @block_rows_parsed. Qed.
+Theorem C18_block_rows_exact :
+  forall (s : string) (p : prog) (t : teal) (sel : string -> string),
+    parse_program s = Ok p -> parse_teal p = Ok t ->
+    forall (n : nat) (b : block), tblock t n = Some b ->
+    map row_pos (block_rows sel (splitlines s) t b) = b_ins b /\
+    NoDup (b_ins b) /\
+    map row_line (block_rows sel (splitlines s) t b) = block_lines t b /\
+    StronglySorted lt (map row_line (block_rows sel (splitlines s) t b)) /\
+    length (block_rows sel (splitlines s) t b) = length (b_ins b) /\
+    block_rows sel (splitlines s) t b <> nil.
+Proof. exact @block_rows_exact. Qed.
+
+(* the generated label of every block of teal.bbs: header cell, then the rendered rows *)
+Theorem C18_bb_label_gen_parsed :
+  forall (s : string) (p : prog) (t : teal) (sel : string -> string) (cfg : rowcfg),
+    parse_program s = Ok p -> parse_teal p = Ok t ->
+    forall b : block, In b (t_blocks t) ->
+    exists port : nat,
+      block_port t b = Some port /\
+      bb_label_gen t (splitlines s) sel (b_idx b) (lift_cfg cfg) =
+      Some (mkLabel (b_idx b) (mc_border cfg (b_idx b))
+              (CHead port (mc_border_size cfg) (slashed (sanitize (block_tealer_comments t b ++ mc_bb_extra cfg (b_idx b))))
+               :: map (render_row cfg) (block_rows sel (splitlines s) t b))).
+Proof. exact @bb_label_gen_parsed. Qed.
+
+(* DOT rows and JSON rows list the same lines; the DOT text parses to the instruction the JSON row prints *)
+Theorem C18_rows_json_agree :
+  forall (s : string) (p : prog) (t : teal) (sel : string -> string),
+    parse_program s = Ok p -> parse_teal p = Ok t ->
+    forall (n : nat) (b : block), tblock t n = Some b ->
+    Forall2 (fun (r : row) (j : nat * string) =>
+               row_line r = fst j /\
+               (exists (l : string) (o : instr),
+                  row_src r = strip l /\ parse_line l = Ok (Some o) /\ snd j = str_of_instr o /\ row_markup r = ins_markup o))
+            (block_rows sel (splitlines s) t b) (json_block_rows t n).
+Proof. exact @rows_json_agree. Qed.
+
+(* bold-italic markup exactly on callsub / retsub *)
+Theorem C18_row_markup_exact :
+  forall (s : string) (p : prog) (t : teal) (sel : string -> string),
+    parse_program s = Ok p -> parse_teal p = Ok t ->
+    forall (n : nat) (b : block) (r : row), tblock t n = Some b -> In r (block_rows sel (splitlines s) t b) ->
+    exists i : ins,
+      nth_error (t_prog t) (row_pos r) = Some i /\
+      (row_markup r = MBoldItalic <-> (exists l : string, i_op i = ICallsub l) \/ i_op i = IRetsub).
+Proof. exact @row_markup_exact. Qed.
+
+(* escaping: injective on all strings, no raw markup character survives, the markup is recoverable from the text *)
+Theorem C18_esc_inj : forall s1 s2 : string, esc s1 = esc s2 -> s1 = s2.
+Proof. exact @esc_inj. Qed.
+Theorem C18_esc_clean : forall (s : string) (d : ascii), raw_markup_char d = true -> has_char d (esc s) = false.
+Proof. exact @esc_clean. Qed.
+Theorem C18_mark_esc_inj :
+  forall (m1 m2 : markup) (s1 s2 : string), mark m1 (esc s1) = mark m2 (esc s2) -> m1 = m2 /\ s1 = s2.
+Proof. exact @mark_esc_inj. Qed.
+Theorem C18_strip_not_injective_refuted : exists a b : string, a <> b /\ strip a = strip b.
+Proof. exact strip_not_injective_refuted. Qed.
+
+(* file names of the sub-cfg exports, in write order; pairwise distinct *)
+Theorem C18_all_subroutines_files_gen_eq :
+  forall (t : teal) (prefix : string), all_subroutines_files_gen t prefix = Some (sub_cfg_files_prefixed prefix t).
+Proof. exact @all_subroutines_files_gen_eq. Qed.
+Theorem C18_sub_cfg_files_prefixed_empty : forall t : teal, sub_cfg_files_prefixed "" t = sub_cfg_files t.
+Proof. exact @sub_cfg_files_prefixed_empty. Qed.
+Theorem C18_sub_cfg_file_names_distinct :
+  forall (prefix : string) (t : teal), NoDup (map s_name (t_subs t)) -> NoDup (map fst (sub_cfg_files_prefixed prefix t)).
+Proof. exact @sub_cfg_file_names_distinct. Qed.
+
+Print Assumptions C18_instruction_to_dot_gen_eq.
+Print Assumptions C18_source_row_parsed.
+Print Assumptions C18_block_rows_exact.
+Print Assumptions C18_bb_label_gen_parsed.
+Print Assumptions C18_rows_json_agree.
+Print Assumptions C18_row_markup_exact.
+Print Assumptions C18_esc_inj.
+Print Assumptions C18_mark_esc_inj.
+Print Assumptions C18_all_subroutines_files_gen_eq.
+Print Assumptions C18_sub_cfg_file_names_distinct.
